@@ -199,6 +199,9 @@ def execute(sc, ctx):
     if edit and len(recorded) >= 2:
         before, after = recorded[-2], recorded[-1]
         target = w.abspath(edit["src"] if edit["op"] == "rename" else edit["path"])
+        if edit["op"] == "rename" and any(p_ not in observe.default_patterns() for p_ in pats):
+            edit = None  # a rename can change which entries the user patterns match: not a pure rename any more
+    if edit and len(recorded) >= 2:
         probe_path = w.abspath(edit["dst"]) if edit["op"] == "rename" else target
         q = probe_path
         while q != w.root and q.startswith(w.root):
